@@ -42,6 +42,9 @@ class Pipe:
             self.busy = False
 
     def _fire(self):
+        if not self.q:  # cleared while the pump timer was armed
+            self.busy = False
+            return
         _t, item = self.q.popleft()
         try:
             if not self.closed:
